@@ -23,6 +23,6 @@ package emulator
 //@   ensures old(uint32(s.CPU.RK)<<16|uint32(s.CPU.PC)) == targetPC ==> ncalls("(*emulator/cpu65c816.CPU).Step") == 0
 //@   ensures maxCycles == 0 ==> ncalls("(*emulator/cpu65c816.CPU).Step") == 0
 //@   at call:Step:1 assert cycles < maxCycles && uint32(s.CPU.RK)<<16|uint32(s.CPU.PC) != targetPC
-//@   loop 1 invariant old(uint32(s.CPU.RK)<<16|uint32(s.CPU.PC)) == targetPC ==> ncalls("(*emulator/cpu65c816.CPU).Step") == 0
+//@   loop 1 invariant old(uint32(s.CPU.RK)<<16|uint32(s.CPU.PC)) == targetPC ==> uint32(s.CPU.RK)<<16|uint32(s.CPU.PC) == targetPC && ncalls("(*emulator/cpu65c816.CPU).Step") == 0
 //@   loop 1 decreases ite(cycles < maxCycles, maxCycles-cycles, 0)
 //@   loop 1 modifies s.CPU, s.CPU.Bus.EA, s.CPU.Bus.Write, oa
